@@ -68,6 +68,7 @@ types, assume_specifications, spec functions, lemmas):
   //@loopend <ordinal> | <text>      ghost/proof line placed right before the closing brace of the n-th loop's body (fall-through end of an iteration; erased code)
   //@loopafter <ordinal> | <text>    ghost/proof line placed right after the closing brace of the n-th loop (erased code)
   //@before <needle> | <text>        ghost/proof line placed before the statement that starts with <needle> (erased code)
+  //@after <needle> | <text>         ghost/proof line placed right after the statement that starts with <needle> (its end = the `;` at the same nesting depth; erased code)
   //@atreturn | <text>               ghost/proof line placed before EVERY `return` of the body (after closure lifting) and before its closing brace: an obligation on
                                       every exit, also on exits a change adds (erased code)
   //@atend | <text>                  ghost/proof line placed before the closing brace of the body (fall-through exit only; erased code)
@@ -845,8 +846,9 @@ def expand(template_path, repo='/repo'):
             loopafters = {}
             lec = []
             atreturn = []
+            afters = []
             while i + 1 < len(tpl) and (tpl[i + 1].strip().startswith('//@|') or tpl[i + 1].strip().startswith('//@loop')
-                                        or tpl[i + 1].strip().startswith('//@ghost') or tpl[i + 1].strip().startswith('//@dropstmt') or tpl[i + 1].strip().startswith('//@atend') or tpl[i + 1].strip().startswith('//@atreturn') or tpl[i + 1].strip().startswith('//@before')
+                                        or tpl[i + 1].strip().startswith('//@ghost') or tpl[i + 1].strip().startswith('//@dropstmt') or tpl[i + 1].strip().startswith('//@atend') or tpl[i + 1].strip().startswith('//@after') or tpl[i + 1].strip().startswith('//@atreturn') or tpl[i + 1].strip().startswith('//@before')
                                         or tpl[i + 1].strip().startswith('//@continue_to_else') or tpl[i + 1].strip().startswith('//@letelse_continue') or tpl[i + 1].strip().startswith('//@loopend') or tpl[i + 1].strip().startswith('//@loopafter') or tpl[i + 1].strip().startswith('//@lift') or tpl[i + 1].strip().startswith('//@sigsubst') or tpl[i + 1].strip().startswith('//@mapor') or tpl[i + 1].strip().startswith('//@thunk') or tpl[i + 1].strip().startswith('//@okmap') or tpl[i + 1].strip().startswith('//@mapdefault')):
                 i += 1
                 t = tpl[i].strip()
@@ -905,6 +907,9 @@ def expand(template_path, repo='/repo'):
                 elif t.startswith('//@before'):
                     nd, txt = t[len('//@before'):].split('|', 1)
                     befores.append((nd.strip(), txt.strip()))
+                elif t.startswith('//@after'):
+                    nd, txt = t[len('//@after'):].split('|', 1)
+                    afters.append((nd.strip(), txt.strip()))
                 elif t.startswith('//@atreturn'):
                     atreturn.append(t.split('|', 1)[1].strip())
                 elif t.startswith('//@atend'):
@@ -1097,6 +1102,24 @@ def expand(template_path, repo='/repo'):
                 if pos is None:
                     raise CutError('fn %s: statement for //@before not found: %s' % (name, needle))
                 body = body[:pos] + txt + '\n        ' + body[pos:]
+            for needle, txt in afters:
+                rxn = re.compile(r'\s*'.join(re.escape(tok) for tok in needle.split()))
+                pos = None
+                for j, d in rc.code_positions(body):
+                    if rxn.match(body, j) and (j == 0 or not (body[j - 1].isalnum() or body[j - 1] == '_')):
+                        pos = j; break
+                if pos is None:
+                    raise CutError('fn %s: statement for //@after not found: %s' % (name, needle))
+                depth, end = 0, None
+                for k, d in rc.code_positions(body, pos):
+                    c = body[k]
+                    if c in '([{': depth += 1
+                    elif c in ')]}': depth -= 1
+                    elif c == ';' and depth == 0:
+                        end = k; break
+                if end is None:
+                    raise CutError('fn %s: end of statement for //@after not found: %s' % (name, needle))
+                body = body[:end + 1] + '\n        ' + txt + body[end + 1:]
             if atreturn:
                 txt_ = ' '.join(atreturn)
                 pos_list = []
